@@ -207,6 +207,8 @@ impl C06 {
             ("string-random", srnd),
             ("cross-type", 49),
             ("int-chains", chains),
+            // == != < <= > >= of long strings across in-place changes (props/strlife.rs)
+            ("string-lifecycle", match (ctx.flavour, ctx.tier) { (Flavour::Rel, Tier::Quick) => 4_000, (Flavour::Rel, Tier::Thorough) => 300_000, (_, Tier::Quick) => 300, _ => 5_000 }),
         ])
     }
 
@@ -464,6 +466,10 @@ impl Check for C06 {
                         st.sample(&p2);
                     }
                 }
+            }
+            "string-lifecycle" => {
+                let mut r = Rng::for_case(ctx.seed, 6_900, i);
+                super::strlife::run_case(&mut r, super::strlife::Focus::Equality, name, false, st);
             }
             "int-chains" => {
                 // every application in a chain of operators is exact and reports its own overflow: `x + 1 - 1` at the
